@@ -267,7 +267,9 @@ func c05Reference(specs []c05HandlerSpec, subject string) (marker, code string, 
 var c05PatternPool = []string{"a", "a.set", "a.$id", "a.>", "a.$id.set", "a.$id.$sub", "b", "b.*", "a.new", "a.$id.new", "$any", "", ">", ""}
 var c05RNames = []string{"test.a", "test.a.set", "test.a.x", "test.a.x.set", "test.a.x.y", "test.a.x.y.z", "test.b", "test.b.set", "test", "test.a.new", "test.a.x.new", "test.q", "test.a.*",
 	// reach the service only when it owns more than its own name (every third configuration owns ">")
-	"test_a", "testxa.set", "testsa.x", "tes.a", "testa", "other.a", "test_a.x"}
+	"test_a", "testxa.set", "testsa.x", "tes.a", "testa", "other.a", "test_a.x",
+	// shorter than the service name, and a strict prefix of it
+	"a", "tes", "t.a", "te.st"}
 var c05Methods = []string{"set", "new", "foo", "login", "x"}
 
 func c05RandSpecs(r *rand.Rand) []c05HandlerSpec {
